@@ -381,7 +381,9 @@ fn history(front: Front, reg: Reg, rng: &mut Prng, col: &mut Collector) {
         // while a window is set up or listened in); the application carries on with its next send
         if plan == "none" && rng.chance(1, 40) {
             let base = dev.log.borrow().radio_calls;
-            dev.log.borrow_mut().fault_at = Some(base + rng.below(4) as usize);
+            // (up to the call that closes RX2: the state-machine front-end makes five radio calls per
+            // unanswered uplink, the async one six)
+            dev.log.borrow_mut().fault_at = Some(base + rng.below(7) as usize);
         }
         // one uplink in eight is a MAC-only one: FPort 0 without payload
         let (data, port): (Vec<u8>, u8) = if rng.chance(1, 8) { (vec![], 0) } else { (vec![step as u8], 3) };
